@@ -481,7 +481,9 @@ var genScenarios = map[string]func(g *Gen) []scriptStep{
 	// two deleted topics, one still named by a live subscription's dead-letter policy (kept), one
 	// not: pruned with batch size ONE the job must still get to the one it may remove (C15)
 	"prune-topics-batch-one": func(g *Gen) []scriptStep {
-		job := func() scriptStep { return opStep(&Op{Kind: "Job", Job: "PruneDeletedTopics", MaxN: 1, MinAge: time.Second}) }
+		job := func() scriptStep {
+			return opStep(&Op{Kind: "Job", Job: "PruneDeletedTopics", MaxN: 1, MinAge: time.Second})
+		}
 		return []scriptStep{
 			opStep(&Op{Kind: "CreateTopic", Name: sT0}), opStep(&Op{Kind: "CreateTopic", Name: sT1}),
 			opStep(&Op{Kind: "CreateTopic", Name: "projects/p/topics/t2"}), opStep(&Op{Kind: "CreateTopic", Name: "projects/p/topics/t3"}),
@@ -539,7 +541,7 @@ var genScenarios = map[string]func(g *Gen) []scriptStep{
 			pubStep(sT0, "", ""), pullStep(sS0, 10), advStep(20 * time.Second),
 			pullStep(sS0, 10), // dead-letters: the copies on s1 are published NOW, the messages 20 s ago
 			advStep(3 * time.Second),
-			job("PruneCompletedDeliveries", time.Second), // the retired source deliveries go
+			job("PruneCompletedDeliveries", time.Second),  // the retired source deliveries go
 			job("PruneCompletedMessages", 10*time.Second), // older than 10 s: the messages are, their live copies are not
 			pullStep(sS1, 10), ackLeased(sS1, "Ack", 0, true),
 			advStep(15 * time.Second), job("PruneCompletedDeliveries", time.Second), job("PruneCompletedMessages", 10*time.Second),
